@@ -114,4 +114,60 @@ impl FramebufferTag {
 //@end
 }
 
+// ---------------------------------------------------------------------------
+// BootInformation::framebuffer_tag (C04: first type-8 tag; "a framebuffer tag with an unknown type
+// byte is reported as an error carrying that byte, never as a known type")
+// ---------------------------------------------------------------------------
+impl Tag for FramebufferTag {
+//@extractall multiboot2/src/framebuffer.rs :: impl Tag for FramebufferTag
+//@  const ID: novis
+//@end
+}
+
+/// the tag header stored at the start of a typed tag reference
+pub open spec fn fb_hdr_dec(t: &FramebufferTag) -> TagHeader {
+    decode::<TagHeader>(mem_at(ref_prov(t), ref_addr(t) as int, 8))
+}
+
+/// TRUSTED layout statement for the repr(C, align(8)) DST `FramebufferTag` (fixed part 32 bytes: header 8,
+/// address 8, pitch/width/height 3 x 4, bpp 1, type 1, padding 2; tail `[u8]`): a typed view as `cast` produces it
+/// (same address, metadata = size - 32) has its `header` field at offset 0 -- so the field's value is the decoded
+/// header -- and its `buffer` tail at offset 32 with `metadata` elements, inside the object.  Same kind of
+/// statement as DynSizedStructure::{header,payload}; checked on the compiled type by the Kani harnesses
+/// k_fb_* (palette pointer == byte 34 of the tag, field decodes) and by n_mbi_getters_many_tags.
+#[verifier::external_body]
+pub broadcast proof fn axiom_fb_tag_layout(t: &FramebufferTag)
+    requires
+        tag_wf(t),
+        <FramebufferTag as MaybeDynSized>::dst_len_ok(&fb_hdr_dec(t)),
+        ref_meta(t) == <FramebufferTag as MaybeDynSized>::dst_len_spec(&fb_hdr_dec(t)),
+    ensures
+        #[trigger] fb_tag_wf(t),
+        t.header == fb_hdr_dec(t),
+{
+}
+
+impl<'a> BootInformation<'a> {
+//@extract multiboot2/src/boot_information.rs :: impl<'a> BootInformation<'a> :: fn framebuffer_tag
+//@  ret r
+//@  optional
+//@  closure 0: |tag: &FramebufferTag| -> (c: Result<&FramebufferTag, UnknownFramebufferType>) requires fb_tag_wf(tag), panics_allowed() ensures tag.framebuffer_type > 2 ==> c is Err && c->Err_0 == UnknownFramebufferType(tag.framebuffer_type), tag.framebuffer_type <= 2 ==> c is Ok && ref_addr(c->Ok_0) == ref_addr(tag) && ref_prov(c->Ok_0) == ref_prov(tag) && ref_meta(c->Ok_0) == ref_meta(tag)
+//@  prologue broadcast use axiom_fb_tag_layout;
+//@  spec:
+//@    requires self.wf(), panics_allowed(),
+//@    ensures
+//@        // with x = the first tag of type 8 in walk order (if any)
+//@        exists|x: Option<&FramebufferTag>| #[trigger] mb_getter_post::<FramebufferTag>(self, 8, x)
+//@            && (x is None ==> r is None)
+//@            && (x is Some ==> r is Some && ({
+//@                let t = x->Some_0;
+//@                // unknown type byte: an error carrying that byte, never a known type
+//@                &&& t.framebuffer_type > 2 ==> r->Some_0 is Err && r->Some_0->Err_0 == UnknownFramebufferType(t.framebuffer_type)
+//@                // known type byte: that very tag
+//@                &&& t.framebuffer_type <= 2 ==> r->Some_0 is Ok && ref_addr(r->Some_0->Ok_0) == ref_addr(t)
+//@                        && ref_prov(r->Some_0->Ok_0) == ref_prov(t) && ref_meta(r->Some_0->Ok_0) == ref_meta(t)
+//@            })),
+//@end
+}
+
 } // verus!
